@@ -415,6 +415,22 @@ class GenA:
               'dst': [d[0], d[1]] + ([dsel] if dst_kind == 'plate' else []), 'q': q, 'obs': rng.randrange(1 << 30)}
         return ev
 
+    def maybe_sub(self, sel, shape):
+        """Sometimes narrow a rectangular selection to a slice of a slice (only used where the library iterates wells)."""
+        rng = self.rng
+        if sel.get('k') not in ('rect', 'row') or rng.random() >= self.p.get('p_subslice', 0.1):
+            return sel
+        cells, sh = M.select(sel, shape)
+        if sh is None or sh[0] * sh[1] < 2:
+            return sel
+        a = rng.randint(0, sh[0] - 1)
+        b = rng.randint(a + 1, sh[0])
+        c0 = rng.randint(0, sh[1] - 1)
+        c1 = rng.randint(c0 + 1, sh[1])
+        if (b - a, c1 - c0) == sh:
+            return sel
+        return {'k': 'sub', 'base': sel, 'sub': [[a, b], [c0, c1]]}
+
     def sel_biased_nonempty(self, mp, allow_list=False):
         rng = self.rng
         ne = self.nonempty_cells(mp)
@@ -504,7 +520,7 @@ class GenA:
         ref = [t[0], t[1]]
         present = []
         if kind == 'plate':
-            sel = self.sel_biased_nonempty(m)
+            sel = self.maybe_sub(self.sel_biased_nonempty(m, allow_list=True), m.shape)
             ref.append(sel)
             cells, _ = M.select(sel, m.shape)
             for c in cells:
@@ -530,7 +546,7 @@ class GenA:
         m, obj = self.latest_model(*t)
         ref = [t[0], t[1]]
         if kind == 'plate':
-            sel = gen_selector(rng, m.shape)
+            sel = self.maybe_sub(gen_selector(rng, m.shape, allow_list=True), m.shape)
             ref.append(sel)
             cells, _ = M.select(sel, m.shape)
             vs = [m.well(c) for c in cells]
@@ -694,7 +710,8 @@ class GenA:
             t = self.pick('container')
             if t is not None:
                 m, _ = self.latest_model(*t)
-                if any(a > 0 and W.msubs[n].kind == M.LIQUID for n, a in m.contents.items()) and not any(s in m.contents for s in sol):
+                if any(a > 0 and W.msubs[n].kind == M.LIQUID for n, a in m.contents.items()) and \
+                        (rng.random() < 0.4 or not any(s in m.contents for s in sol)):
                     solv = [t[0], t[1]]
         return {'op': 'solution', 'name': name, 'solutes': sol, 'solvent': solv, 'kwargs': kwargs, 'obs': rng.randrange(1 << 30)}
 
